@@ -784,7 +784,7 @@ def check(run):
         "and the boundary inputs of every failing refinement slot; non-trivial = not rejected as unknown property / unknown type")
     gen_ok = sc.translate_and_build(run, "Props/C02.v")
     variants = sc.detect_variants(run)
-    g, cases = sc.gen_cases(run.rng, per_class=3 if quick else 12, corrupt_per_obj=5 if quick else 8,
+    g, cases = sc.gen_cases(run.rng, per_class=2 if quick else 12, corrupt_per_obj=5 if quick else 8,
                             allow_share=0.15)
     cases += witness_cases()
     cases += special_constraint_cases(g, run.rng)
